@@ -27,9 +27,9 @@ func main() {
 	witness := flag.Bool("witness", false, "witness (vacuity) mode")
 	trace := flag.Bool("trace", false, "trace instructions")
 	solverKind := flag.String("solver", "z3-new", "z3 | z3-new | cvc5")
-	timeout := flag.Int("qtimeout", 8000, "solver timeout per query (ms)")
+	timeout := flag.Int("qtimeout", 20000, "solver timeout per query (ms)")
 	fallback := flag.String("fallback", "z3,cvc5", "solvers asked one-shot when the primary answers unknown")
-	fbTimeout := flag.Int("fbtimeout", 30000, "timeout of a fallback query (ms)")
+	fbTimeout := flag.Int("fbtimeout", 60000, "timeout of a fallback query (ms)")
 	maxPaths := flag.Int("maxpaths", 200000, "")
 	maxInstrs := flag.Int64("maxinstrs", 5000000, "")
 	loopLimit := flag.Int("looplimit", 4096, "")
